@@ -254,7 +254,10 @@ func (t *tcpHandler) recv(connSt *connInfo) {
 		}
 		connSt.idleTime = time.Now().Unix()
 		n, err = conn.Read(buffer)
-		if err != nil {
+		// a Read may hand back data together with an error (crypto/tls does when the peer's
+		// close_notify is right behind the data): the data is framed first, the next Read
+		// reports the error again
+		if err != nil && n == 0 {
 			TLOG.Debugf("%s closed: %d, read %d, nil buff: %d, err: %v", t.server.config.Address, atomic.LoadInt32(&t.server.isClosed), n, len(currBuffer), err)
 			if atomic.LoadInt32(&t.server.isClosed) == 1 && currBuffer == nil {
 				return
